@@ -106,6 +106,9 @@ def model_agrees(o, a, m, s=None):
         # one instant spelled in two zones is one grouping value; which spelling a group shows depends on
         # the (unstable) sort of the rows inside Reduce
         a, m = zoneless(a), zoneless(m)
+        if " ob=-" in o and "lim=-" in o:
+            # no ORDER BY: the order of the groups follows Reduce's unstable sort on ties (keys equal as values)
+            return unorder(a) == unorder(m)
     ref = s if (s and s.startswith(("ok", "limit="))) else m
     mixed = ordered and kinds_mixed(o, ref)
     if ordered and lim and mixed:
